@@ -146,12 +146,26 @@ def r06_3_zone_type_dispatch(ctx: Ctx) -> RuleResult:
     cz = M.func("_TzdbStreamData.create_zone")
     tcls = M.cls("_DateTimeZoneWriter._DateTimeZoneType")
     members = {k for k, v in tcls.assigns.items() if isinstance(M.fold(v, tcls, tcls.mod), int)}
+    # arms of the dispatch in either form: `match type_: case T.X:` or `if type_ == T.X:` (facts holding at each return)
+    from ..exc import facts_at
+
     arms = {}
-    for m in own_nodes(cz.node):
-        if isinstance(m, ast.Match):
-            for c in m.cases:
-                if isinstance(c.pattern, ast.MatchValue):
-                    arms[unparse(c.pattern.value).split(".")[-1]] = unparse(c.body[-1])
+    for r in own_nodes(cz.node):
+        if not isinstance(r, ast.Return) or r.value is None:
+            continue
+        member = None
+        cur = getattr(r, "_parent", None)
+        while cur is not None and not isinstance(cur, ast.FunctionDef):
+            if isinstance(cur, ast.match_case) and isinstance(cur.pattern, ast.MatchValue):
+                member = unparse(cur.pattern.value).split(".")[-1]
+                break
+            cur = getattr(cur, "_parent", None)
+        if member is None:
+            for (l, op, rhs) in facts_at(r):
+                if op == "==" and rhs.split(".")[-1] in members and "DateTimeZoneType" in rhs:
+                    member = rhs.split(".")[-1]
+        if member is not None:
+            arms[member] = unparse(r)
     want = {"FIXED": "return _FixedDateTimeZone.read(reader, id_)", "PRECALCULATED": "return _CachedDateTimeZone._for_zone(_PrecalculatedDateTimeZone._read(reader, id_))"}
     for mname in sorted(members):
         rr.inst()
